@@ -15,7 +15,7 @@ ID = 'C05'
 KEYS = [('m', 'margin', False), ('p', 'padding', False), ('lh', 'line-height', True), ('z', 'z-index', True),
         ('op', 'opacity', True), ('bd', 'border', False), ('c', 'color', False),
         ('P', 'padding', False), ('Lh', 'line-height', True)]          # a key names its snippet whatever its letter case
-SUFFIXES = ['', 'p', 'e', 'x', 'r', 'px', '%', 'vh']
+SUFFIXES = ['', 'p', 'e', 'x', 'r', 'px', '%', 'vh', 'Q', 'kHz']      # explicit units are letters of either case
 ALIAS = {'p': '%', 'e': 'em', 'x': 'ex', 'r': 'rem'}
 NUM_LITS = [('0', False), ('1', False), ('10', False), ('-5', False), ('.5', True), ('1.', True), ('1.25', True), ('-.5', True),
             ('1000000', False), ('2147483647', False), ('1234.567', True), ('.125', True),
@@ -32,6 +32,7 @@ OPTION_SPACE = {
     'stylesheet.shortHex': [True, False],
     'stylesheet.between': [None, ':'],
     'stylesheet.after': [None, ' ;'],
+    'context': [None, '@@property'],        # not an option: the call is made from inside a rule body (property snippets only)
 }
 BATCH = 40
 BOUNDS = {
@@ -240,6 +241,16 @@ PRIME = {'stylesheet.intUnit': 'qi', 'stylesheet.floatUnit': 'qf', 'stylesheet.u
          'stylesheet.shortHex': False, 'stylesheet.between': '=', 'stylesheet.after': '$'}
 
 
+def cfg_of(syntax, o, **extra):
+    "call configuration: `context` travels with the option deviations but is a key of its own"
+    o = dict(o)
+    ctx_name = o.pop('context', None)
+    cfg = dict({'type': 'stylesheet', 'syntax': syntax, 'options': o}, **extra)
+    if ctx_name:
+        cfg['context'] = {'name': ctx_name}
+    return cfg
+
+
 def batch_ok(cases, abbrs, syntax, opts, where):
     o = dict((k, v) for k, v in opts.items() if v is not None)
     joined = with_unmatched(abbrs, where)
@@ -251,7 +262,7 @@ def batch_ok(cases, abbrs, syntax, opts, where):
     except Exception:
         pass
     try:
-        out = expand(joined, {'type': 'stylesheet', 'syntax': syntax, 'options': o, 'cache': cache})
+        out = expand(joined, cfg_of(syntax, o, cache=cache))
     except Exception:
         return False
     lines = out.split('\n')
@@ -284,7 +295,7 @@ def run_batch(cases, syntax, opts, ctx, where=0):
                 i += 1
         joined = with_unmatched([abbrs[j] for j in keep], where)
         try:
-            out = expand(joined, {'type': 'stylesheet', 'syntax': syntax, 'options': o})
+            out = expand(joined, cfg_of(syntax, o))
         except Exception as e:
             out = 'EXC:' + type(e).__name__
         ctx.violation('joined:not-one-property-per-line' + suffix(o),
@@ -300,7 +311,7 @@ def suffix(o):
 def single(c, abbr, syntax, opts):
     o = dict((k, v) for k, v in opts.items() if v is not None)
     try:
-        out = expand(abbr, {'type': 'stylesheet', 'syntax': syntax, 'options': o})
+        out = expand(abbr, cfg_of(syntax, o))
     except Exception as e:
         return 'exception:%s' % type(e).__name__, dict(abbr=abbr, error=str(e)[:120])
     if '\n' in out:
